@@ -164,3 +164,14 @@ contract(f"{WB}::WebBrowser.get_webpage", props=["C01"],
          requires=["self.software_manager is not None", "'dns-client' in self.software_manager.software"],
          ensures=[("dead_application_does_nothing", "implies(not old(host_on(self) and self.operating_state == ApplicationOperatingState.RUNNING), result == False and unchanged())")],
          modifies=["heap"], allocates=True)
+
+# ---- the per-step metadata record: what goes to json.dump is JSON-typed --------------------------------------------------------------------
+# (`with open(...)` and json.dump are outside the subset; the record is built by one statement, taken as a block region: the action a
+# learning library hands to step() is typically a numpy integer, which json.dump refuses -- the record must hold plain ints)
+contract("src/primaite/session/environment.py::PrimaiteGymEnv._write_step_metadata_json#record", props=["C01"],
+         region=("block", {"start": "data = {", "count": 1}),
+         types={"self": "PrimaiteGymEnv", "step": "int", "action": "Any", "reward": "Any", "state": "Dict[str, Any]"},
+         requires=["isinstance(action, int) or isinstance(action, float)", "isinstance(reward, int) or isinstance(reward, float)"],
+         ensures=[("action_and_reward_are_plain_ints", "isinstance(data['action'], int) and isinstance(data['reward'], int)"),
+                  ("record_complete", "data['episode'] == self.episode_counter and data['step'] == step and data['state'] is state")],
+         modifies=[], allocates=True)
